@@ -15,6 +15,7 @@ mod glvchk;
 mod gtchk;
 mod lpcomp;
 mod oraclechk;
+mod orders;
 mod world;
 mod tlworld;
 mod cfgkeys;
@@ -31,7 +32,7 @@ fn main() {
     let _saved = std::env::var_os("SVM_LOG").is_none().then(mc_core::silence_stdout);
     svm::install();
     let rep: Report = match cli.property.as_str() {
-        "SELFTEST" => match svm::selftest().and_then(|_| world::selftest()) {
+        "SELFTEST" => match svm::selftest().and_then(|_| world::selftest()).and_then(|_| orders::selftest()) {
             Ok(()) => {
                 eprintln!("svm-lite selftest ok");
                 std::process::exit(0)
